@@ -7,7 +7,7 @@ use serde_json::json;
 const TOKENS: &[&str] = &[
     "/*", "*/", "//", "///", "//!", "#", "#!", "--", "<!--", "-->", "[//]:", "[//]: #", "(", ")", "\"", "'", "`", "=begin", "=end", "\n", "\n", "\r\n", " ", "  ", "\t",
     "<block", "<block>", "<block ", "</block>", "</ block >", "<", ">", "/", "=", "name", "name=", "name=\"a\"", "severity=\"warning\"", "x='", "<block name=\"", "affects=\":a\"",
-    "*", " * ", "/**", "**/", "/*!", "/*/", "*/*", "<!-->", "<!--->", "--!>", "<!", "]]>", "<![CDATA[", "<?php", "?>", "<p>", "</p>", "<textarea>", "{", "}", "[", "]", ";", ":",
+    "*", " * ", "\n\u{a0}* ", "\n\u{3000}*", "\n \u{a0}*x", "\n\u{2028}*", "/**", "**/", "/*!", "/*/", "*/*", "<!-->", "<!--->", "--!>", "<!", "]]>", "<![CDATA[", "<?php", "?>", "<p>", "</p>", "<textarea>", "{", "}", "[", "]", ";", ":",
     "\u{a0}", "é", "😀", "e\u{301}", "\u{200b}", "\u{feff}", "\u{2028}", "名", "\u{0}", "\\", "\\n", "a", "1", "x y", "def f():", "fn f() {}", "- ", "> ", "```", "~~~", "    ",
     "[é]:", "[a]: b", "[//]: \"", "[//]: # (", "(x)", "<!-- <block -->", "key: v", "k = 1", "$x", "@", "%", "&lt;",
 ];
